@@ -19,7 +19,7 @@ Y_PKGS = "./lib/j5schema,./lib/j5reflect,./internal/codec,./lib/j5codec,./j5type
 
 PROPS = {
     "C14": dict(
-        harness="sim/c14", cmd="zzverif_c14", race=False,
+        harness="sim/c14", cmd="zzverif_c14", race=False, history_check=True,
         rewrite=["-m", M_PKGS],
         extra_pkgs=[("sim/j5sgen", "internal/zzverif/j5sgen")],
         tiers={
@@ -216,6 +216,79 @@ def do_selftest(binary, prop, seed, outdir, runs, extra_args):
                     break
     return res
 
+def _refdigest(binary, seed, gen, order, outdir, tag):
+    out = os.path.join(outdir, "refdigest.%s.json" % tag)
+    r = run([binary, "-mode", "refdigest", "-seed", str(seed), "-gen", gen, "-indices", ",".join(map(str, order)), "-out", out],
+            env=goenv(), capture_output=True, text=True, cwd=outdir)
+    if r.returncode != 0 or not os.path.exists(out):
+        return None
+    return json.load(open(out)).get("ref_digests") or {}
+
+def history_check(binary, seed, tier, tcfg, results, outdir):
+    """C14, 'independent of what else was compiled earlier in the same process': the reference outputs of a
+    program must be the same in every process, whatever that process compiled before. Compares the digests
+    recorded by the workers (each saw its own stride of programs) with two extra processes that compile a
+    sample of the same programs in a seeded order and in the reverse order."""
+    import random
+    gen = "default"
+    a = tcfg["args"]
+    if "-gen" in a:
+        gen = a[a.index("-gen") + 1]
+    seen = {}  # idx -> list of (digest, description, order-prefix)
+    for r in results:
+        w = r.get("worker")
+        idxs = sorted(int(k) for k in (r.get("ref_digests") or {}))
+        for pos, i in enumerate(idxs):
+            seen.setdefault(i, []).append((r["ref_digests"][str(i)], "worker %d" % w, idxs[:pos + 1]))
+    sample = sorted(seen)
+    rnd = random.Random(seed)
+    rnd.shuffle(sample)
+    sample = sample[: (32 if tier == "quick" else 160)]
+    orders = {"shuffled": list(sample), "reversed": list(reversed(sample))}
+    for tag, order in orders.items():
+        d = _refdigest(binary, seed, gen, order, outdir, tag)
+        if d is None:
+            trouble("history check: refdigest process failed")
+        for pos, i in enumerate(order):
+            seen[i].append((d.get(str(i)), "process compiling the sample in %s order" % tag, order[:pos + 1]))
+    viol = []
+    compared = 0
+    for i in sorted(seen):
+        obs = seen[i]
+        compared += len(obs)
+        if len({o[0] for o in obs}) <= 1:
+            continue
+        fresh = (_refdigest(binary, seed, gen, [i], outdir, "fresh%d" % i) or {}).get(str(i))
+        bad = [o for o in obs if o[0] != fresh]
+        if not bad:
+            continue
+        dig, desc, prefix = min(bad, key=lambda o: len(o[2]))
+        # minimise the list of earlier programs (fresh process per candidate)
+        pre = prefix[:-1]
+        def differs(cand):
+            d = _refdigest(binary, seed, gen, cand + [i], outdir, "min")
+            return d is not None and d.get(str(i)) != fresh
+        if not differs(pre):
+            pre = prefix[:-1]  # not reproducible by order alone; keep as recorded
+        else:
+            changed = True
+            while changed and len(pre) > 1:
+                changed = False
+                for k in range(len(pre)):
+                    cand = pre[:k] + pre[k + 1:]
+                    if differs(cand):
+                        pre = cand
+                        changed = True
+                        break
+        viol.append(dict(property="C14", master_seed=seed, program_index=i, exec_index=-1, program=None, minimised=True,
+                         finding_key="process_history_dependence",
+                         violation=dict(**{"class": "process_history_dependence"}, form="", op_index=-1, op="",
+                                        detail="reference outputs of program %d: digest %s in a fresh process, %s in %s (after programs %s)" % (i, fresh, dig, desc, pre)),
+                         history_case=dict(index=i, order=pre + [i], gen=gen, fresh_digest=fresh, history_digest=dig)))
+        break  # one report is enough
+    info = dict(programs_compared=len(seen), digests_compared=compared, extra_processes=2, sample=len(sample))
+    return viol, info
+
 def write_evidence(prop, tier, seed, level, coverage, assumptions, wall, nviol):
     os.makedirs(os.path.join(VERIF, "evidence"), exist_ok=True)
     ev = dict(property_id=prop, tier=tier, seed=seed, level=level, coverage=coverage, assumptions=assumptions,
@@ -271,6 +344,11 @@ def check(prop, tier):
     wall = time.time() - t0
     run_wall = max((r.get("wall_s", 0) for r in results), default=0)
 
+    history_info = None
+    if cfg.get("history_check"):
+        hv, history_info = history_check(binary, seed, tier, tcfg, results, outdir)
+        violations += hv
+
     findings, fixed = load_known_findings(prop)
     known = dict(findings)
     # one report per finding key: keep the smallest replay
@@ -324,6 +402,7 @@ def check(prop, tier):
         unmodelled_sync=report.get("unmodelled") or [],
         components=COMPONENTS[prop],
         determinism_selftest=selftest,
+        cross_process_history_check=history_info,
         build_s=round(build_s, 1),
         known_findings_listed=[k for k, _ in findings],
         fixed_findings_listed=[k for k, _ in fixed],
